@@ -5,7 +5,8 @@ Translates a pest grammar (the subset of the pest meta-language cicada uses:
 string / case-insensitive literals, char ranges, identifiers, ~ | * + ? ! &,
 parentheses, rule modifiers _ @ $ !, // comments) into a value of
 Cicada.Base.Peg.grammar. Rule ids are the 1-based positions of the rules in
-the file; id 0 is EOI. Refuses what Base/Peg.v does not model (COMMENT, PUSH /
+the file; id 0 is EOI. Applies the one rewrite of pest_meta's optimizer that is observable in
+non-atomic rules (unroller: e+ ==> e ~ e*). Refuses what Base/Peg.v does not model (COMMENT, PUSH /
 PEEK / POP, repetition counts {n,m}, tags)."""
 import re, sys
 
@@ -142,8 +143,13 @@ def emit(e, ids):
         for x in reversed(items[:-1]):
             r = "(%s %s %s)" % (c, x, r)
         return r
-    if k in ("rep", "rep1", "opt", "not", "and"):
-        c = {"rep": "PRep", "rep1": "PRep1", "opt": "POpt", "not": "PNot", "and": "PAnd"}[k]
+    if k == "rep1":
+        # pest_meta::optimizer::unroller (always on without the grammar-extras feature):
+        # e+  ==>  e ~ e*   (observable: the implicit skip after the first e is not rolled back)
+        x = emit(e[1], ids)
+        return "(PSeq %s (PRep %s))" % (x, x)
+    if k in ("rep", "opt", "not", "and"):
+        c = {"rep": "PRep", "opt": "POpt", "not": "PNot", "and": "PAnd"}[k]
         return "(%s %s)" % (c, emit(e[1], ids))
     raise Exception(k)
 
